@@ -1,0 +1,325 @@
+//! C12 adapter: the real notification `Connection` task, `NotificationSink` and `NotificationHandle`
+//! over two in-memory pipes (`crate::verif::io`). The adapter is the remote peer (it reads the outbound
+//! pipe with a bounded capacity, writes frames into the inbound pipe), the user (sync/async sends,
+//! polling the handle) and the scheduler (`run` polls the task and the waiting async sends until nothing
+//! moves). Payloads carry a mode tag and a sequence number.
+
+use super::{
+    connection::Connection,
+    handle::{NotificationEventHandle, NotificationHandle, NotificationSink},
+    types::{InnerNotificationEvent, NotificationCommand, NotificationEvent},
+    verif_c11::Flag,
+    Direction, NotificationError,
+};
+use crate::{
+    codec::ProtocolCodec,
+    substream::Substream,
+    types::{protocol::ProtocolName, SubstreamId},
+    verif::{
+        io::{frame, pipe, unframe, PipeCtl},
+        kv, peer, VerifBox,
+    },
+    PeerId,
+};
+
+use bytes::BytesMut;
+use futures::{Future, Stream};
+use parking_lot::RwLock;
+use tokio::sync::{
+    mpsc::{channel, Receiver, Sender},
+    oneshot,
+};
+
+use std::{
+    pin::Pin,
+    sync::Arc,
+    task::{Context, Poll, Waker},
+};
+
+type BoxFut<T> = Pin<Box<dyn Future<Output = T> + Send>>;
+
+struct Live {
+    task: Option<BoxFut<()>>,
+    flag: Arc<Flag>,
+    shutdown: Option<oneshot::Sender<()>>,
+    inp: PipeCtl,
+    out: PipeCtl,
+    rbuf: Vec<u8>,
+}
+
+struct Inner {
+    handle: NotificationHandle,
+    event_tx: Sender<InnerNotificationEvent>,
+    notif_tx: Sender<(PeerId, BytesMut)>,
+    command_rx: Receiver<NotificationCommand>,
+    notice_tx: Sender<PeerId>,
+    notice_rx: Receiver<PeerId>,
+    sync: usize,
+    asyn: usize,
+    cap: usize,
+    max: usize,
+    live: Option<Live>,
+    /// async sends waiting for capacity, in order of issue
+    waiting: Vec<(u32, BoxFut<crate::Result<()>>, Arc<Flag>)>,
+    hflag: Arc<Flag>,
+}
+
+pub struct ChanBox {
+    inner: Option<Inner>,
+}
+
+impl ChanBox {
+    pub fn new() -> Self {
+        Self { inner: None }
+    }
+}
+
+fn payload(tag: u8, seq: u32, size: usize) -> Vec<u8> {
+    let mut v = vec![tag, (seq >> 8) as u8, seq as u8];
+    v.resize(size.max(3), 0x2e);
+    v
+}
+
+fn label(p: &[u8]) -> String {
+    if p.len() >= 3 {
+        format!("{}{}", p[0] as char, ((p[1] as u32) << 8) | p[2] as u32)
+    } else {
+        "?".into()
+    }
+}
+
+impl Inner {
+    fn poll_handle(&mut self) -> Vec<String> {
+        let mut out = Vec::new();
+        loop {
+            let waker = Waker::from(Arc::clone(&self.hflag));
+            let mut cx = Context::from_waker(&waker);
+            match Pin::new(&mut self.handle).poll_next(&mut cx) {
+                Poll::Ready(Some(NotificationEvent::NotificationReceived { notification, .. })) =>
+                    out.push(label(&notification)),
+                Poll::Ready(Some(NotificationEvent::NotificationStreamClosed { .. })) =>
+                    out.push("closed".into()),
+                Poll::Ready(Some(NotificationEvent::NotificationStreamOpened { .. })) =>
+                    out.push("opened".into()),
+                Poll::Ready(Some(_)) => out.push("other".into()),
+                Poll::Ready(None) => {
+                    out.push("end".into());
+                    break;
+                }
+                Poll::Pending => break,
+            }
+        }
+        out
+    }
+
+    /// Poll the connection task and the waiting async sends until nothing moves.
+    fn run(&mut self) -> String {
+        let mut done_async = Vec::new();
+        let mut ended = false;
+        for _ in 0..10_000 {
+            let mut progress = false;
+            if let Some(live) = self.live.as_mut() {
+                if let Some(task) = live.task.as_mut() {
+                    if live.flag.take() {
+                        progress = true;
+                        let waker = Waker::from(Arc::clone(&live.flag));
+                        crate::verif::io::IN_TASK.with(|c| c.set(true));
+                        let r = task.as_mut().poll(&mut Context::from_waker(&waker));
+                        crate::verif::io::IN_TASK.with(|c| c.set(false));
+                        if r.is_ready() {
+                            live.task = None;
+                            ended = true;
+                        }
+                    }
+                }
+            }
+            let mut i = 0;
+            while i < self.waiting.len() {
+                if self.waiting[i].2.take() {
+                    progress = true;
+                    let waker = Waker::from(Arc::clone(&self.waiting[i].2));
+                    match self.waiting[i].1.as_mut().poll(&mut Context::from_waker(&waker)) {
+                        Poll::Ready(r) => {
+                            let (seq, _, _) = self.waiting.remove(i);
+                            done_async.push(format!("a{seq}:{}", if r.is_ok() { "ok" } else { "noconn" }));
+                            continue;
+                        }
+                        Poll::Pending => {}
+                    }
+                }
+                i += 1;
+            }
+            if !progress {
+                break;
+            }
+        }
+        let mut res = vec!["ok".to_string()];
+        if !done_async.is_empty() {
+            res.push(format!("sent=[{}]", done_async.join(" ")));
+        }
+        if ended {
+            res.push("ended".into());
+        }
+        while let Ok(_) = self.notice_rx.try_recv() {
+            res.push("notice".into());
+        }
+        res.join(" ")
+    }
+}
+
+impl VerifBox for ChanBox {
+    fn step(&mut self, line: &str) -> String {
+        let t: Vec<&str> = line.split_whitespace().collect();
+        if let ["cfg", rest @ ..] = t.as_slice() {
+            let kv = kv(rest);
+            let g = |k: &str, d: usize| kv.get(k).and_then(|v| v.parse().ok()).unwrap_or(d);
+            let (event_tx, event_rx) = channel(64);
+            let (notif_tx, notif_rx) = channel(g("notif", 4).max(1));
+            let (command_tx, command_rx) = channel(16);
+            let (notice_tx, notice_rx) = channel(16);
+            let handle = NotificationHandle::new(
+                event_rx,
+                notif_rx,
+                command_tx,
+                Arc::new(RwLock::new(vec![1])),
+                ProtocolName::from("/notif/1"),
+            );
+            self.inner = Some(Inner {
+                handle,
+                event_tx,
+                notif_tx,
+                command_rx,
+                notice_tx,
+                notice_rx,
+                sync: g("sync", 4).max(1),
+                asyn: g("async", 2).max(1),
+                cap: g("cap", 64),
+                max: g("max", 256),
+                live: None,
+                waiting: Vec::new(),
+                hflag: Flag::new(true),
+            });
+            return "ok".into();
+        }
+        let Some(inner) = self.inner.as_mut() else {
+            return "bad-op".into();
+        };
+        let p1 = peer(1);
+        let num = |s: &str| s.parse::<usize>().ok();
+        match t.as_slice() {
+            ["open"] => {
+                if inner.live.as_ref().map(|l| l.task.is_some()).unwrap_or(false) {
+                    return "ignored".into();
+                }
+                let codec = ProtocolCodec::UnsignedVarint(Some(inner.max));
+                let (iend, ictl) = pipe(1 << 24);
+                let (oend, octl) = pipe(inner.cap);
+                let inbound = Substream::new_verif(p1, SubstreamId::from(1usize), Box::new(iend), codec.clone());
+                let outbound = Substream::new_verif(p1, SubstreamId::from(2usize), Box::new(oend), codec);
+                let (async_tx, async_rx) = channel(inner.asyn);
+                let (sync_tx, sync_rx) = channel(inner.sync);
+                let sink = NotificationSink::new(p1, sync_tx, async_tx);
+                let (connection, shutdown) = Connection::new(
+                    p1,
+                    inbound,
+                    outbound,
+                    NotificationEventHandle::new(inner.event_tx.clone()),
+                    inner.notice_tx.clone(),
+                    inner.notif_tx.clone(),
+                    async_rx,
+                    sync_rx,
+                );
+                inner
+                    .event_tx
+                    .try_send(InnerNotificationEvent::NotificationStreamOpened {
+                        protocol: ProtocolName::from("/notif/1"),
+                        fallback: None,
+                        direction: Direction::Outbound,
+                        peer: p1,
+                        handshake: vec![],
+                        sink,
+                    })
+                    .ok();
+                inner.live = Some(Live {
+                    task: Some(Box::pin(async move { connection.start().await })),
+                    flag: Flag::new(true),
+                    shutdown: Some(shutdown),
+                    inp: ictl,
+                    out: octl,
+                    rbuf: Vec::new(),
+                });
+                "ok".into()
+            }
+            ["sync", seq, size] => {
+                let (Some(seq), Some(size)) = (num(seq), num(size)) else { return "bad-op".into() };
+                let r = inner.handle.send_sync_notification(p1, payload(b's', seq as u32, size));
+                let mut res = match r {
+                    Ok(()) => "ok".to_string(),
+                    Err(NotificationError::ChannelClogged) => "clogged".into(),
+                    Err(NotificationError::NoConnection) => "noconn".into(),
+                    Err(_) => "other".into(),
+                };
+                while let Ok(cmd) = inner.command_rx.try_recv() {
+                    if let NotificationCommand::ForceClose { .. } = cmd {
+                        res.push_str(" forceclose");
+                    }
+                }
+                res
+            }
+            ["async", seq, size] => {
+                let (Some(seq), Some(size)) = (num(seq), num(size)) else { return "bad-op".into() };
+                let Some(sink) = inner.handle.notification_sink(p1) else {
+                    return "nopeer".into();
+                };
+                let data = payload(b'a', seq as u32, size);
+                let mut fut: BoxFut<crate::Result<()>> =
+                    Box::pin(async move { sink.send_async_notification(data).await });
+                let flag = Flag::new(false);
+                let waker = Waker::from(Arc::clone(&flag));
+                match fut.as_mut().poll(&mut Context::from_waker(&waker)) {
+                    Poll::Ready(Ok(())) => "ok".into(),
+                    Poll::Ready(Err(_)) => "noconn".into(),
+                    Poll::Pending => {
+                        inner.waiting.push((seq as u32, fut, flag));
+                        "waiting".into()
+                    }
+                }
+            }
+            ["run"] => inner.run(),
+            ["rread", rest @ ..] => {
+                let Some(live) = inner.live.as_mut() else { return "ignored".into() };
+                let bytes = match rest.first().and_then(|x| num(x)) {
+                    Some(n) => live.out.remote_read(n),
+                    None => live.out.remote_read_all(),
+                };
+                live.rbuf.extend_from_slice(&bytes);
+                let (frames, used) = unframe(&live.rbuf);
+                live.rbuf.drain(..used);
+                format!("[{}]", frames.iter().map(|f| label(f)).collect::<Vec<_>>().join(" "))
+            }
+            ["rsend", seq, size] => {
+                let (Some(seq), Some(size)) = (num(seq), num(size)) else { return "bad-op".into() };
+                let Some(live) = inner.live.as_mut() else { return "ignored".into() };
+                live.inp.remote_write(&frame(&payload(b'r', seq as u32, size)));
+                "ok".into()
+            }
+            ["rclose"] => {
+                let Some(live) = inner.live.as_mut() else { return "ignored".into() };
+                live.inp.remote_close();
+                "ok".into()
+            }
+            ["close"] => {
+                let Some(live) = inner.live.as_mut() else { return "ignored".into() };
+                match live.shutdown.take() {
+                    Some(tx) => {
+                        let _ = tx.send(());
+                        "ok".into()
+                    }
+                    None => "ignored".into(),
+                }
+            }
+            ["events"] => format!("[{}]", inner.poll_handle().join(" ")),
+            _ => "bad-op".into(),
+        }
+    }
+}
